@@ -61,6 +61,65 @@ Example C15_examples :
   encode_half_bits 0x33800000 = Some 0x0001 /\ half_is_nan 0x7C01 = true /\ half_is_nan 0x7C00 = false.
 Proof. repeat split; vm_compute; reflexivity. Qed.
 
+(* ---- cbor_float_get_float: the one getter that returns a value of another width.  For a half / single item it returns
+   the stored float converted to double; [float_get_float_bits w bits] (PWiden.v, printed by HHist3.values_of and compared
+   with the C getter's result by the api3 stream) is that double as a binary64 pattern.  Proofs in theories/PWiden_proofs.v
+   (structural: no sweep over the 2^32 patterns). ---- *)
+From CB Require Import PWiden PWiden_proofs.
+
+(* a half or single item holding the non-NaN float [bits]: the double has exactly the same real value *)
+Theorem C15_get_float_value : forall w bits, w <> F64 -> bits < 2^32 -> f32_is_nan bits = false ->
+  B2R _ _ (b64 (float_get_float_bits w bits)) = B2R _ _ (b32 bits).
+Proof. exact PWiden_proofs.C15_get_float_value. Qed.
+Print Assumptions C15_get_float_value.
+
+(* ... and the same class and sign (zeros, infinities) *)
+Theorem C15_get_float_class : forall w bits, w <> F64 -> bits < 2^32 -> f32_is_nan bits = false ->
+  is_nan _ _ (b64 (float_get_float_bits w bits)) = false /\ is_nan _ _ (b32 bits) = false /\
+  is_finite _ _ (b64 (float_get_float_bits w bits)) = is_finite _ _ (b32 bits) /\
+  Bsign _ _ (b64 (float_get_float_bits w bits)) = Bsign _ _ (b32 bits) /\
+  (forall s, b64 (float_get_float_bits w bits) = B754_zero _ _ s <-> b32 bits = B754_zero _ _ s) /\
+  (forall s, b64 (float_get_float_bits w bits) = B754_infinity _ _ s <-> b32 bits = B754_infinity _ _ s).
+Proof. exact PWiden_proofs.C15_get_float_class_value. Qed.
+Print Assumptions C15_get_float_class.
+
+(* a decoded half: the double returned for the item has the IEEE-754 value of the binary16 pattern *)
+Theorem C15_get_float_half_value : forall h, h < 65536 -> half_is_nan h = false ->
+  B2R _ _ (b64 (float_get_float_bits F16 (decode_half h))) = B2R _ _ (b16 h).
+Proof. exact PWiden_proofs.C15_get_float_half_value. Qed.
+Print Assumptions C15_get_float_half_value.
+
+(* a double item: the stored bits *)
+Theorem C15_get_float_double : forall bits, f64_is_nan bits = false -> float_get_float_bits F64 bits = bits.
+Proof. exact PWiden_proofs.C15_get_float_double. Qed.
+Print Assumptions C15_get_float_double.
+
+(* NaN of any width: NaN (one canonical pattern in the model, as for the width-specific getters) *)
+Theorem C15_get_float_nan : forall w bits,
+  (match w with F64 => f64_is_nan bits | _ => f32_is_nan bits end) = true ->
+  float_get_float_bits w bits = 0x7FF8000000000000.
+Proof. exact PWiden_proofs.C15_get_float_nan. Qed.
+Print Assumptions C15_get_float_nan.
+
+(* the widening loses nothing: distinct non-NaN floats give distinct doubles, all of them 64-bit patterns *)
+Theorem C15_widen_injective : forall v1 v2, v1 < 2^32 -> v2 < 2^32 ->
+  f32_is_nan v1 = false -> f32_is_nan v2 = false -> widen32 v1 = widen32 v2 -> v1 = v2.
+Proof. exact PWiden_proofs.C15_widen_injective. Qed.
+Theorem C15_widen_bound : forall v, v < 2^32 -> widen32 v < 2^64.
+Proof. exact PWiden_proofs.C15_widen_bound. Qed.
+Print Assumptions C15_widen_injective.
+Print Assumptions C15_widen_bound.
+
+(* 1.0f; the smallest and the largest binary32 subnormals (normal doubles); the largest float; -infinity; a signalling NaN;
+   the smallest subnormal half 2^-24 through decode_half *)
+Example C15_get_float_examples :
+  widen32 0x3F800000 = 0x3FF0000000000000 /\ widen32 0x00000001 = 0x36A0000000000000 /\
+  widen32 0x007FFFFF = 0x380FFFFFC0000000 /\ widen32 0x7F7FFFFF = 0x47EFFFFFE0000000 /\
+  widen32 0xFF800000 = 0xFFF0000000000000 /\ widen32 0x7F800001 = 0x7FF8000000000000 /\
+  float_get_float_bits F16 (decode_half 0x0001) = 0x3E70000000000000 /\
+  float_get_float_bits F64 0x3FF0000000000001 = 0x3FF0000000000001.
+Proof. repeat split; vm_compute; reflexivity. Qed.
+
 (* ---- translator tie, second wave: the float encoders and _cbor_decode_half as translated from this run's clang
    AST (float parameters as bit patterns, isnan as the bit test, ldexp as a constructor) are the model's ---- *)
 From Coq Require Import ZArith.
